@@ -198,7 +198,7 @@ func scenC11(w *vsim.World, spec *vsim.Spec) {
 		returned = true
 		sumAtReturn = sum200
 		locsAtReturn = locators
-		w.Logf("put returned loc=%q rep=%d err=%v", loc, rep, err)
+		w.Logf("put returned loc=%q rep=%d err=%v", loc, rep, err != nil) // the error text is built from a map range in the code under test
 	})
 	w.Run(nil) // also drains abandoned uploads
 	if w.Failed() || w.Truncated() {
